@@ -182,6 +182,10 @@ def run(ctx, compare=True):
             cw, cg = _c.Counter(want), _c.Counter(got)
             if fate in ("undecodable", "overlong"):
                 same = not (cg - cw)
+            elif not alive:
+                # the model's session ended inside the input (QUIT, 522 ...): lines read before the handler ran
+                # may still be answered (502 is queued by the dispatcher itself), later ones never are
+                same = not (cw - cg) or not (cg - cw)
             else:
                 same = cw == cg
             if (not same) or (fate in ("undecodable", "overlong") and alive and not o["g_eof"]):
